@@ -14,6 +14,8 @@ type sop struct {
 	N  *string  `json:"n,omitempty"` // name / uri / method
 	V  *int     `json:"v,omitempty"` // version (reg)
 	Ns []string `json:"ns"`          // names (unreg)
+	H  string   `json:"h,omitempty"` // reg: "nil" = registered with a nil handler (stored and listed like any other)
+	X  string   `json:"x,omitempty"` // refused: which degenerate registration (not a step of the model: nothing may change)
 }
 
 func sp(s string) *string { return &s }
@@ -30,19 +32,80 @@ func stateOut(e *env, kind string) map[string]any {
 	return o
 }
 
-// runHistory drives a fresh real server through the history and returns the canonical outcomes.
-func runHistory(h []sop, variantSeed int) ([]any, error) {
+// orderMapMismatch: the bookkeeping of one registry read through the hook: the order slice must be a duplicate-free
+// enumeration of exactly the keys of the map (the invariant C12_order_inv is about). "" = fine.
+func orderMapMismatch(e *env, kind string) string {
+	st := mcp.VerifRegistryState(e.f.S, kind)
+	seen := map[string]bool{}
+	for _, n := range st.Order {
+		if seen[n] {
+			return fmt.Sprintf("the order slice names %q twice (order %q, keys %q)", n, st.Order, st.Keys)
+		}
+		seen[n] = true
+	}
+	if len(st.Order) != len(st.Keys) {
+		return fmt.Sprintf("the order slice has %d names, the map %d keys (order %q, keys %q)", len(st.Order), len(st.Keys), st.Order, st.Keys)
+	}
+	for _, k := range st.Keys {
+		if !seen[k] {
+			return fmt.Sprintf("the key %q is not in the order slice (order %q, keys %q)", k, st.Order, st.Keys)
+		}
+	}
+	return ""
+}
+
+func allStates(e *env) string {
+	var b []byte
+	for _, k := range []string{"tool", "prompt", "resource", "template", "notif"} {
+		st := mcp.VerifRegistryState(e.f.S, k)
+		b = append(b, fmt.Sprintf("%s:%q/%q;", k, st.Order, st.Keys)...)
+	}
+	return string(b)
+}
+
+// runHistory drives a fresh real server through the history and returns the steps the model knows (refused degenerate
+// registrations are none) with their canonical outcomes, plus what the implementation-level oracles found.
+func runHistory(h []sop, variantSeed int) ([]sop, []any, []hk.Violation, error) {
 	e, err := newEnv(2)
 	if err != nil {
-		return nil, err
+		return nil, nil, nil, err
 	}
 	defer e.close()
 	outs := []any{}
+	var steps []sop
+	var viols []hk.Violation
+	reported := map[string]bool{}
 	for i, o := range h {
 		sess := (i + variantSeed) % 2
+		if o.T != "refused" {
+			steps = append(steps, o)
+		}
+		if i > 0 {
+			// after every step: order slice and map of every ordered registry agree (read through the hook)
+			for _, k := range []string{"tool", "prompt", "resource"} {
+				if bad := orderMapMismatch(e, k); bad != "" && !reported[k] {
+					reported[k] = true
+					viols = append(viols, hk.Violation{Fingerprint: "registry:order-map-mismatch:" + k,
+						What:  "after a history of registrations the " + k + " registry's order slice is not a duplicate-free enumeration of its map: " + bad,
+						Input: map[string]any{"history": histJSON(h[:i])}, Observed: bad, Expected: "order slice = keys of the map, each once"})
+				}
+			}
+		}
 		switch o.T {
+		case "refused":
+			before := allStates(e)
+			e.refusedRegistration(o.K, o.X)
+			if after := allStates(e); after != before {
+				viols = append(viols, hk.Violation{Fingerprint: "registry:refused-registration-changed-state:" + o.K + ":" + o.X,
+					What:  "a degenerate registration that stores nothing (" + o.K + ", " + o.X + ") changed a registry",
+					Input: map[string]any{"history": histJSON(h[:i+1])}, Observed: after, Expected: before})
+			}
 		case "reg":
-			e.register(o.K, *o.N, *o.V, variantSeed+i)
+			if o.H == "nil" {
+				e.prepareNil(o.K, *o.N, *o.V, variantSeed+i)()
+			} else {
+				e.register(o.K, *o.N, *o.V, variantSeed+i)
+			}
 			outs = append(outs, stateOut(e, o.K))
 		case "unreg":
 			switch o.K {
@@ -59,7 +122,7 @@ func runHistory(h []sop, variantSeed int) ([]any, error) {
 				}
 				outs = append(outs, stateOut(e, "notif"))
 			default:
-				return nil, fmt.Errorf("no unregister API for %s", o.K)
+				return nil, nil, nil, fmt.Errorf("no unregister API for %s", o.K)
 			}
 		case "list":
 			l, err := e.list(sess, o.K)
@@ -105,7 +168,14 @@ func runHistory(h []sop, variantSeed int) ([]any, error) {
 			outs = append(outs, map[string]any{"list": entriesJSON(sortedEntries(l))})
 		}
 	}
-	return outs, nil
+	for _, k := range []string{"tool", "prompt", "resource"} {
+		if bad := orderMapMismatch(e, k); bad != "" && !reported[k] {
+			viols = append(viols, hk.Violation{Fingerprint: "registry:order-map-mismatch:" + k,
+				What:  "after a history of registrations the " + k + " registry's order slice is not a duplicate-free enumeration of its map: " + bad,
+				Input: map[string]any{"history": histJSON(h)}, Observed: bad, Expected: "order slice = keys of the map, each once"})
+		}
+	}
+	return steps, outs, viols, nil
 }
 
 func histJSON(h []sop) []any {
@@ -131,6 +201,8 @@ func runSequential(c *hk.Ctx) {
 		{T: "reg", K: "tool", N: sp("a"), V: ip(1)}, {T: "reg", K: "tool", N: sp("b"), V: ip(2)}, {T: "reg", K: "tool", N: sp("a"), V: ip(3)},
 		{T: "unreg", K: "tool", Ns: []string{"a"}}, {T: "unreg", K: "tool", Ns: []string{"b", "a", "a"}}, {T: "unreg", K: "tool", Ns: []string{"", "q"}},
 		{T: "call", K: "tool", N: sp("a")}, {T: "reg", K: "tool", N: sp(""), V: ip(4)},
+		// degenerate registrations: a nil handler is stored and listed (never called here: name n), a nil descriptor stores nothing
+		{T: "reg", K: "tool", N: sp("n"), V: ip(5), H: "nil"}, {T: "reg", K: "tool", N: sp("n"), V: ip(6)}, {T: "refused", K: "tool", X: "nil-descriptor-nil-handler"},
 	}
 	tail := []sop{{T: "list", K: "tool"}, {T: "gets"}, {T: "call", K: "tool", N: sp("a")}, {T: "get", N: sp("b")}, {T: "reg", K: "tool", N: sp("c"), V: ip(9)}}
 	for _, o1 := range alpha {
@@ -151,6 +223,11 @@ func runSequential(c *hk.Ctx) {
 			{T: "reg", K: k, N: sp(p[2]), V: ip(4)}, {T: "reg", K: k, N: sp(""), V: ip(5)}}
 		if k != "template" {
 			al = append(al, sop{T: "call", K: k, N: sp(p[0])})
+		}
+		// a nil handler first and a proper registration of the same key later (and the other way round); p[2] is never called
+		al = append(al, sop{T: "reg", K: k, N: sp(p[2]), V: ip(6), H: "nil"})
+		if vs := refusedRegistrations[k]; len(vs) > 0 {
+			al = append(al, sop{T: "refused", K: k, X: vs[len(vs)-1]})
 		}
 		if k == "notif" {
 			al = append(al, sop{T: "unreg", K: k, Ns: []string{p[0]}})
@@ -179,6 +256,7 @@ func runSequential(c *hk.Ctx) {
 		n := 5 + c.Rng.Intn(maxLen)
 		ver := 0
 		var h []sop
+		nilBound := map[string]bool{} // kind/name currently bound to a nil handler: never called
 		for j := 0; j < n; j++ {
 			kinds := []string{"tool", "tool", "tool", "prompt", "resource", "resource", "template", "notif"}
 			k := kinds[c.Rng.Intn(len(kinds))]
@@ -193,7 +271,15 @@ func runSequential(c *hk.Ctx) {
 			switch {
 			case x < 38:
 				ver++
-				h = append(h, sop{T: "reg", K: k, N: sp(pick()), V: ip(ver)})
+				o := sop{T: "reg", K: k, N: sp(pick()), V: ip(ver)}
+				if i%2 == 1 && c.Rng.Intn(100) < 22 { // every other history mixes degenerate registrations in
+					o.H = "nil"
+				}
+				nilBound[k+"/"+*o.N] = o.H == "nil" // (templates are never called)
+				h = append(h, o)
+				if vs := refusedRegistrations[k]; i%2 == 1 && len(vs) > 0 && c.Rng.Intn(100) < 15 {
+					h = append(h, sop{T: "refused", K: k, X: vs[c.Rng.Intn(len(vs))]})
+				}
 			case x < 52 && (k == "tool" || k == "notif"):
 				m := 1
 				if k == "tool" {
@@ -211,6 +297,12 @@ func runSequential(c *hk.Ctx) {
 				if k == "notif" && nm == "" {
 					nm = p[0]
 				}
+				if nilBound[k+"/"+nm] {
+					if k != "notif" {
+						h = append(h, sop{T: "list", K: k})
+					}
+					continue
+				}
 				h = append(h, sop{T: "call", K: k, N: sp(nm)})
 			case x < 95:
 				h = append(h, sop{T: "get", N: sp(namePool["tool"][c.Rng.Intn(len(namePool["tool"]))])})
@@ -221,10 +313,13 @@ func runSequential(c *hk.Ctx) {
 		hists = append(hists, h)
 	}
 	for i, h := range hists {
-		outs, err := runHistory(h, i)
+		steps, outs, viols, err := runHistory(h, i)
 		if err != nil {
 			c.Violate(hk.Violation{Fingerprint: "registry:harness-setup", What: "could not run a history: " + err.Error(), Input: h})
 			return
+		}
+		for _, v := range viols {
+			c.Violate(v)
 		}
 		// non-trivial: the history replaced or removed a live entry and then observed the registry
 		nontrivial := false
@@ -243,6 +338,7 @@ func runSequential(c *hk.Ctx) {
 						changed = true
 					}
 				}
+			case "refused":
 			case "list", "call", "gets", "get":
 				if changed {
 					nontrivial = true
@@ -253,6 +349,9 @@ func runSequential(c *hk.Ctx) {
 		if i >= len(hists)-nRand {
 			tag = "seq:random"
 		}
-		c.Emit(map[string]any{"c": "registry.run", "ops": histJSON(h)}, map[string]any{"outs": outs}, nontrivial, tag)
+		if len(steps) < len(h) {
+			c.Count(fmt.Sprintf("seq:refused:%d", i), true, nil, "seq:with-refused-registrations")
+		}
+		c.Emit(map[string]any{"c": "registry.run", "ops": histJSON(steps)}, map[string]any{"outs": outs}, nontrivial, tag)
 	}
 }
